@@ -9,6 +9,7 @@ import (
 	"encoding/base64"
 	"encoding/json"
 	"net/http"
+	"strings"
 
 	rt "github.com/google/inverting-proxy/zzverifrt"
 	"github.com/gorilla/websocket"
@@ -277,10 +278,14 @@ func VerifC11Burst() {
 		return
 	}
 	n := rt.Param("burst", 12)
+	// pad > 0 (HW-11e): every message carries that many further bytes, so that a
+	// burst also exceeds any plausible *byte* bound on a poll reply, not only the
+	// 10-slot message buffers
+	pad := strings.Repeat("x", rt.Param("pad", 0))
 	// backend -> client: all messages are queued before the first poll (symbolic: the
 	// connection's goroutines may or may not have drained the socket by then)
 	for i := 0; i < n; i++ {
-		rt.Assert(env.backend.WriteMessage(websocket.TextMessage, []byte("s"+rt.Itoa(i))) == nil, "C11.backend-write-ok")
+		rt.Assert(env.backend.WriteMessage(websocket.TextMessage, []byte("s"+rt.Itoa(i)+pad)) == nil, "C11.backend-write-ok")
 	}
 	if rt.Bool("settle") {
 		rt.Quiesce()
@@ -296,7 +301,7 @@ func VerifC11Burst() {
 		rt.Assert(json.Unmarshal(w.Body, &msgs) == nil, "C11.poll-reply-is-a-json-list")
 		for _, raw := range msgs {
 			s, ok := raw.(string)
-			rt.Assert(ok && s == "s"+rt.Itoa(got), "C11.burst-server-messages-in-order-none-lost")
+			rt.Assert(ok && s == "s"+rt.Itoa(got)+pad, "C11.burst-server-messages-in-order-none-lost")
 			got++
 		}
 	}
@@ -304,13 +309,13 @@ func VerifC11Burst() {
 	// client -> backend: one data post carrying the whole burst
 	var batch []interface{}
 	for i := 0; i < n; i++ {
-		batch = append(batch, "c"+rt.Itoa(i))
+		batch = append(batch, "c"+rt.Itoa(i)+pad)
 	}
 	wd := env.call("data", dataBody(sid, batch...), nil)
 	rt.Assert(wd.Code == 200, "C11.data-post-accepted")
 	for i := 0; i < n; i++ {
 		typ, payload, err := env.backend.ReadMessage()
-		rt.Assert(err == nil && typ == websocket.TextMessage && string(payload) == "c"+rt.Itoa(i), "C11.burst-client-messages-in-order-none-lost")
+		rt.Assert(err == nil && typ == websocket.TextMessage && string(payload) == "c"+rt.Itoa(i)+pad, "C11.burst-client-messages-in-order-none-lost")
 		if err != nil {
 			return
 		}
